@@ -53,7 +53,7 @@ type c20Fan struct {
 }
 
 type c20Scenario struct {
-	Sensors   []string   `json:"sensors"` // kinds: file | hwmon
+	Sensors   []string   `json:"sensors"` // kinds: file | hwmon | cmd
 	Curves    []c20Curve `json:"curves"`
 	Fans      []c20Fan   `json:"fans"`
 	TickMs    int        `json:"tickMs"`
@@ -70,7 +70,12 @@ func genC20(t *rapid.T) c20Scenario {
 		MetricsMs: rapid.SampledFrom([]int{11, 70, 500}).Draw(t, "metricsMs"), Seconds: rapid.IntRange(5, 30).Draw(t, "seconds")}
 	ns := rapid.IntRange(1, 3).Draw(t, "nSensors")
 	for i := 0; i < ns; i++ {
-		sc.Sensors = append(sc.Sensors, rapid.SampledFrom([]string{"file", "hwmon"}).Draw(t, "sensorKind"))
+		sc.Sensors = append(sc.Sensors, rapid.SampledFrom([]string{"file", "hwmon", "file", "hwmon", "cmd"}).Draw(t, "sensorKind"))
+	}
+	for _, k := range sc.Sensors {
+		if k == "cmd" && sc.TempMs < 200 {
+			sc.TempMs = 200 // every poll of a script based sensor is a process execution
+		}
 	}
 	nc := rapid.IntRange(1, 6).Draw(t, "nCurves")
 	for i := 0; i < nc; i++ {
@@ -141,6 +146,13 @@ func runC20(t *testing.T, sc c20Scenario, out *c20Counts) (problem string) {
 				}
 			}
 			cfg.Sensors = append(cfg.Sensors, configuration.SensorConfig{ID: id, HwMon: &configuration.HwMonSensorConfig{Platform: "coretemp", Index: idx}})
+		} else if k == "cmd" {
+			p := filepath.Join(dir, "temp_"+id)
+			w(p, "45000")
+			tempFiles = append(tempFiles, p)
+			script := filepath.Join(dir, "sensor_"+id+".sh")
+			_ = os.WriteFile(script, []byte("#!/bin/sh\ncat "+p+"\n"), 0755)
+			cfg.Sensors = append(cfg.Sensors, configuration.SensorConfig{ID: id, Cmd: &configuration.CmdSensorConfig{Exec: script}})
 		} else {
 			p := filepath.Join(dir, "temp_"+id)
 			w(p, "45000")
